@@ -63,7 +63,10 @@ SPEC = dict(
           "sc_instance_key_validate, sc_snap_component_validate, validate_snap_name, validate_instance_name; gen: tags "
           "produced by AppInfo.SecurityTag / HookInfo.SecurityTag from random names (incl. 180-260 byte app/hook names) "
           "through the real sc_security_tag_validate; tag: tags assembled from parts and mutated, asked about matching "
-          "and non-matching (instance, component) pairs, through ParseSecurityTag and sc_security_tag_validate. "
+          "and non-matching (instance, component) pairs, through ParseSecurityTag and sc_security_tag_validate; near-miss "
+          "pairs: 7 bases x {hook, app}, tags from the real SecurityTag() functions and assembled, asked about pairs whose "
+          "instance name, instance key or component is a proper prefix, a one/two byte extension or a one-byte variation "
+          "of the tag's, in both directions. "
           "Non-trivial = some validator accepts."),
     exhaustive=dict(quick=True, thorough=True),
     trusted_base=[
